@@ -197,12 +197,13 @@ class Exec:
             if isinstance(r, Ref): return r.c, r.k
             if isinstance(r, Agg) and r.ty == 'Box':
                 rr = r.fields[0].fields[0].fields[0]; return rr.c, rr.k
+            if isinstance(r, (PyVec, Str)): return c, kk      # slices/strs passed by handle
             raise Unsupported('deref of non-ref %r' % (r,))
         if k == 'downcast': return s.slot(frame, p[1])
         if k == 'field':
             c, kk = s.slot(frame, p[1]); v = c[kk]
             if isinstance(v, (Agg, ClosureVal)): return v.fields, p[2]
-            raise Unsupported('field of %r in place %r fn %s' % (v, p, s.stack[-1][-60:]))
+            raise Unsupported('field of %r in place %r stack %s' % (v, p, [x[-40:] for x in s.stack[-4:]]))
         if k == 'index':
             c, kk = s.slot(frame, p[1]); v = c[kk]; i = frame[p[2]]
             items = v.items if isinstance(v, PyVec) else v.fields
@@ -253,9 +254,7 @@ class Exec:
             en = segs[-2]; names = [v[0] for v in s.W.enums[en]]
             if segs[-1] in names:
                 idx = names.index(segs[-1])
-                if named is not None:
-                    order = s.W.enums[en][idx][1]
-                    fields = [named[f] for f in order]
+                if named is not None: fields = list(named.values())
                 return Agg(en, idx, fields)
         if len(segs) == 1:   # bare variant name ("Eof")
             hits = [(en, [v[0] for v in vs].index(segs[0])) for en, vs in s.W.enums.items() if segs[0] in [v[0] for v in vs]]
@@ -298,7 +297,9 @@ class Exec:
             if sym: a, b = zi(a), zi(b)
             if op == 'Eq': return a == b
             if op == 'Ne': return a != b
-            if op == 'Lt': return a < b
+            if op == 'Lt':
+                if isinstance(b, Agg) or isinstance(a, Agg): raise Unsupported('Lt on %r %r in %s: %s' % (a, b, s.stack[-1][-50:], txt))
+                return a < b
             if op == 'Le': return a <= b
             if op == 'Gt': return a > b
             if op == 'Ge': return a >= b
@@ -309,6 +310,10 @@ class Exec:
             if op == 'Add': return a + b
             if op == 'Sub': return a - b
             raise Unsupported('binop ' + op)
+        m = re.fullmatch(r'(?:PtrMetadata|Len)\((.+)\)', txt)
+        if m:
+            v = s.operand(frame, m.group(1)) if m.group(1).startswith(('copy', 'move')) else s.read(frame, s.parse_place(m.group(1)))
+            v = s.deref(v); return len(v.items if isinstance(v, PyVec) else v.fields)
         m = re.fullmatch(r'Not\((.+)\)', txt)
         if m:
             v = s.operand(frame, m.group(1)); return z3.Not(v) if is_sym(v) else (not v)
@@ -345,13 +350,7 @@ class Exec:
             ev = s.variant_value(m.group(1), None, named)
             if ev is not None: return ev
             sname = re.sub(r'::<.*', '', m.group(1)).split('::')[-1]
-            if sname in s.W.structs:
-                order = s.W.structs[sname]
-                if set(order) != set(named):
-                    alts = [v for (m_, n_), v in getattr(s.W, 'qstructs', {}).items() if n_ == sname and set(v) == set(named)]
-                    if len(alts) == 1: order = alts[0]
-                    else: raise Unsupported('struct fields ambiguous ' + txt[:80])
-                return Agg(sname, 0, [named[f] for f in order])
+            return Agg(sname, 0, list(named.values()))
             raise Unsupported('aggregate ' + txt)
         # tuple-like variant / struct: Path(op, ..)   (appears as rvalue e.g. Option::<usize>::Some(move _9))
         m = re.fullmatch(r'([\w:<>\', &\[\]\(\)]+?)\((.*)\)', txt)
